@@ -1826,6 +1826,9 @@ func hijackDeadlinesCleared(p *Prog, r *Report) {
 }
 
 func isZeroTimeValue(v ssa.Value) bool {
+	if c, ok := v.(*ssa.Const); ok && c.Value == nil {
+		return true // the zero value of an aggregate
+	}
 	if u, ok := v.(*ssa.UnOp); ok && u.Op == token.MUL {
 		if a, ok := u.X.(*ssa.Alloc); ok {
 			// a local time.Time that is never written is the zero time
